@@ -580,6 +580,23 @@ class _NpFacade:
     def mod(self, a, b, *aa, **k):
         return self._ew2(a, b, lambda x, y: x % y, _np.mod)
 
+    def any(self, a, *aa, **k):
+        if (isinstance(a, Sym) or has_sym(a)) and not aa and not k:
+            # each element's truth is a solver-decided branch (short-circuit order as written)
+            for e in ([a] if isinstance(a, Sym) else _elems(a)):
+                if bool(e):
+                    return True
+            return False
+        return _np.any(a, *aa, **k)
+
+    def all(self, a, *aa, **k):
+        if (isinstance(a, Sym) or has_sym(a)) and not aa and not k:
+            for e in ([a] if isinstance(a, Sym) else _elems(a)):
+                if not bool(e):
+                    return False
+            return True
+        return _np.all(a, *aa, **k)
+
     def where(self, cond, *args):
         if not args:
             return _np.where(cond)
@@ -1077,6 +1094,32 @@ def install_read_csv_patch():
 
 
 _assign_patched = False
+
+
+_series_ctor_patched = False
+
+
+def install_series_ctor_patch():
+    """``pd.Series([<proxies>], dtype=np.float64)`` would ask every proxy for a machine number.
+    While a symbolic run is on, a float dtype requested for a list / tuple / object array that
+    holds proxies yields an object Series instead (as the float allocations of the numpy facade)."""
+    global _series_ctor_patched
+    if _series_ctor_patched:
+        return
+    _series_ctor_patched = True
+    orig_init = _pd.Series.__init__
+
+    def __init__(self, data=None, index=None, dtype=None, *a, **k):
+        if dtype is not None and isinstance(data, (list, tuple, _np.ndarray)) and _sym_mode():
+            try:
+                is_float = _np.dtype(dtype).kind == "f"
+            except TypeError:
+                is_float = False
+            if is_float and (not isinstance(data, _np.ndarray) or data.dtype == object) and has_sym(data):
+                dtype = object
+        orig_init(self, data, index, dtype, *a, **k)
+
+    _pd.Series.__init__ = __init__
 
 
 def install_assign_patch():
